@@ -293,7 +293,8 @@ func (w *c22World) runOp(op c22Op) (created, failed bool) {
 	w.setupN, w.failK, w.failHook = 0, 0, ""
 	switch op.Fail {
 	case "before":
-		if len(pre) > 0 {
+		// the hooks of an auto-disconnect (snap removal) carry IgnoreError: their failure does not fail the change
+		if len(pre) > 0 && !op.AutoDisc {
 			w.failHook = hookOf(pre[(op.K)%len(pre)])
 		} else {
 			terr := st.NewTask("error-trigger", "fail before the main task")
